@@ -44,7 +44,7 @@ import numpy as np
 
 from . import parsers, tlc
 
-FIELDS = ("op", "d", "src", "type", "enc", "max", "m", "sh", "copy")
+FIELDS = ("op", "d", "src", "type", "enc", "max", "m", "sh", "copy", "code")
 MODULES = {
     "GenInfo": "volume_to_precomputed",
     "GenScales": "generate_scales_info",
@@ -53,6 +53,7 @@ MODULES = {
     "Convert": "convert_chunks",
     "Stats": "scale_stats",
     "AllInOne": "volume_to_precomputed_pyramid",
+    "Slices": "slices_to_precomputed",
 }
 LAYOUTS = {"deep-gz": [], "deep-plain": ["--no-gzip"], "flat-gz": ["--flat"],
            "flat-plain": ["--flat", "--no-gzip"]}
@@ -62,13 +63,13 @@ SHARDING_SPEC = {"s110": {"@type": "neuroglancer_uint64_sharded_v1", "minishard_
 MAX_BYTES = 2_000_000      # Trace_Pipeline's integer arithmetic assumes datasets below this
 
 
-def cmd(op, d, src="-", type="-", enc="-", max="-", m="-", sh="-", copy="-"):
+def cmd(op, d, src="-", type="-", enc="-", max="-", m="-", sh="-", copy="-", code="-"):
     return {"op": op, "d": d, "src": src, "type": type, "enc": enc, "max": max,
-            "m": m, "sh": sh, "copy": copy}
+            "m": m, "sh": sh, "copy": copy, "code": code}
 
 
 def parse_cmd(s):
-    """'op|d|src|type|enc|max|m|sh|copy' (Gen_Pipeline export) -> dict"""
+    """'op|d|src|type|enc|max|m|sh|copy|code' (Gen_Pipeline export) -> dict"""
     parts = s.split("|")
     if len(parts) != len(FIELDS):
         raise tlc.MachineryError("bad command string %r" % s)
@@ -155,6 +156,73 @@ def make_volume(path, spec, rng):
         img = nibabel.Nifti1Image(a, affine, dtype=dt)
     nibabel.save(img, path)
     return a
+
+
+# ---------------------------------------------------------------------------
+# slice stacks (slices-to-precomputed)
+# ---------------------------------------------------------------------------
+# The tool's help text: the three letters give the anatomical direction each
+# INPUT axis points to - first letter: along rows of a slice (left to right on
+# screen, i.e. the column index), second: along columns (top to bottom, the row
+# index), third: increasing slice number; R/L -> X, A/P -> Y, S/I -> Z; the
+# output is RAS+, so an axis pointing to L, P or I is reversed.
+_AXIS = {"R": 0, "L": 0, "A": 1, "P": 1, "S": 2, "I": 2}
+_REVERSED = "LPI"
+
+
+def reorient_to_ras(stack, code):
+    """stack indexed [column, row, slice(, channel)] -> array indexed [x, y, z(, channel)]"""
+    a = stack
+    for k, letter in enumerate(code):
+        if letter in _REVERSED:
+            a = np.flip(a, axis=k)
+    order = [[_AXIS[l] for l in code].index(ax) for ax in range(3)]
+    return np.transpose(a, order + list(range(3, a.ndim)))
+
+
+def stack_for(volume, code):
+    """The stack [column, row, slice(, channel)] whose re-orientation is `volume` (x, y, z(, c))."""
+    a = np.transpose(volume, [_AXIS[l] for l in code] + list(range(3, volume.ndim)))
+    for k, letter in enumerate(code):
+        if letter in _REVERSED:
+            a = np.flip(a, axis=k)
+    return a
+
+
+def write_stack(base, name, stack, mode, fmt):
+    """Write the stack as 2-D image files (lexicographic order = slice order).
+    mode 'grey': one directory per channel; mode 'rgb': one directory of RGB
+    images (3 channels).  Returns the list of directories."""
+    import skimage.io
+    ext = {"png": ".png", "tiff": ".tif"}[fmt]
+    s4 = stack if stack.ndim == 4 else stack[..., np.newaxis]
+    groups = [s4] if mode == "rgb" else [s4[..., k] for k in range(s4.shape[3])]
+    dirs = []
+    for g, block in enumerate(groups):
+        d = os.path.join(base, "%s_%d" % (name, g))
+        os.makedirs(d, exist_ok=True)
+        for z in range(block.shape[2]):
+            img = block[:, :, z]                       # [column, row(, rgb)]
+            img = np.swapaxes(img, 0, 1)               # image files are [row, column(, rgb)]
+            path = os.path.join(d, "slice_%04d%s" % (z, ext))
+            img = np.ascontiguousarray(img)
+            if fmt == "tiff":
+                import tifffile          # say what the last axis is: thin slices look like RGB
+                tifffile.imwrite(path, img, photometric="rgb" if mode == "rgb" else "minisblack")
+            else:
+                skimage.io.imsave(path, img, check_contrast=False)
+        dirs.append(d)
+    return dirs
+
+
+def hand_fullres_info(vol_spec, volume):
+    """The full-resolution info a user writes by hand for a slice stack
+    (docs/script-usage.rst step 1; resolution in nanometres)."""
+    nch = 1 if volume.ndim == 3 else volume.shape[3]
+    return {"type": "image", "data_type": str(volume.dtype), "num_channels": int(nch),
+            "scales": [{"size": [int(v) for v in volume.shape[:3]],
+                        "resolution": [float(v) * 1e6 for v in vol_spec["voxel"]],
+                        "voxel_offset": [0, 0, 0]}]}
 
 
 # ---------------------------------------------------------------------------
@@ -564,10 +632,30 @@ def build_args(c, env):
         return MODULES[op], lay + (["--copy-info"] if c["copy"] == "copy" else []) + [src, d]
     if op == "Stats":
         return MODULES[op], [d]
+    if op == "Slices":
+        return MODULES[op], lay + ["--input-orientation", c["code"]] + env["stacks"][c["code"]] + [d]
     if op == "AllInOne":
         m = ["--downscaling-method", c["m"]] if (explicit or c["m"] != "auto") else []
         return MODULES[op], lay + _type_enc_flags(c, explicit) + m + [env["vol"], d]
     raise tlc.MachineryError("unknown op %r" % op)
+
+
+def apply_hand_info(c, env):
+    """The user writes info_fullres.json by hand (harness action).  Refused
+    (exit 1) when the file exists."""
+    d = env["dirs"][c["d"]]
+    p = os.path.join(d, "info_fullres.json")
+    if os.path.exists(p):
+        return 1
+    os.makedirs(d, exist_ok=True)
+    info = json.loads(json.dumps(env["hand_info"]))
+    if c["sh"] in SHARDING_SPEC:
+        spec = dict(SHARDING_SPEC[c["sh"]])
+        spec["minishard_index_encoding"] = spec["data_encoding"] = env.get("shard_enc", "gzip")
+        info["scales"][0]["sharding"] = spec
+    with open(p, "w") as f:
+        json.dump(info, f, indent=2)
+    return 0
 
 
 def _info_declares_sharding(d):
@@ -636,12 +724,27 @@ def run_program(workdir, prog, name="p"):
     volidx = it.add(np.moveaxis(v4, (0, 1, 2, 3), (3, 2, 1, 0)))
     env = {"vol": volpath, "dirs": dirs, "lay": prog["lay"], "explicit": prog.get("explicit", False),
            "urls": {}, "shflag": {}, "tgt": prog.get("tgt"), "shard_enc": prog.get("shard_enc", "gzip"),
+           "stacks": {}, "hand_info": hand_fullres_info(prog["vol"], v4 if vol.ndim == 4 else vol),
            "shard_triple": prog.get("shard_triple"),
            "shard_index_enc": prog.get("shard_index_enc", prog.get("shard_enc", "gzip"))}
     servers = []
     case = {"cfg": {"perfect": bool(prog["vol"].get("perfect", True)),
                     "nall": int(prog["vol"].get("nall", 3))},
-            "vol": volidx, "init": {}, "events": []}
+            "vol": volidx, "svol": {"-": 0}, "init": {}, "events": []}
+    # slice stacks: one per orientation code used, built so that its documented
+    # re-orientation is the volume; the EXPECTED array handed to TLC is the
+    # harness' own re-orientation of the stack that was written
+    smode = "rgb" if prog["vol"].get("rgb") else "grey"
+    for c in prog["cmds"]:
+        if c["op"] == "Slices" and c["code"] not in env["stacks"]:
+            if vol.dtype not in (np.uint8, np.uint16):
+                raise tlc.MachineryError("slice stacks need uint8/uint16 volumes, not %s" % vol.dtype)
+            st = stack_for(vol, c["code"])
+            env["stacks"][c["code"]] = write_stack(base, "stack_" + c["code"], st, smode,
+                                                   prog.get("slice_format", "png"))
+            back = reorient_to_ras(st, c["code"])
+            b4 = back if back.ndim == 4 else back[..., np.newaxis]
+            case["svol"][c["code"]] = it.add(np.moveaxis(b4, (0, 1, 2, 3), (3, 2, 1, 0)))
     try:
         for dn in prog.get("http", []):
             s = LoopbackServer(dirs[dn])
@@ -652,6 +755,8 @@ def run_program(workdir, prog, name="p"):
             report = _no_report()
             if c["op"] == "Edit":
                 rc, out, tail, args = apply_edit(c, env), "", "", ["<edit info>"]
+            elif c["op"] == "HandInfo":
+                rc, out, tail, args = apply_hand_info(c, env), "", "", ["<write info_fullres.json>"]
             else:
                 module, args = build_args(c, env)
                 rc, out, tail, args = run_tool(module, args, base)
